@@ -151,6 +151,79 @@ def reader_correspondence(ck, fut):
 RAW_MAPS = [{"@empty": "urn:a"}, {"": "urn:a", "p": "urn:a"}, {"p": "", "q": "urn:b"}, {"@empty": "urn:b", "b": "urn:b"}]
 
 
+def model_namespaces(m):
+    """every namespace the description of the model mentions (module, classes, fields)"""
+    found = []
+
+    def walk(x):
+        if isinstance(x, dict):
+            for k, v in x.items():
+                if k in ("namespace", "module_ns") and isinstance(v, str) and v and not v.startswith("##") and v not in found:
+                    found.append(v)
+                walk(v)
+        elif isinstance(x, (list, tuple)):
+            for v in x:
+                walk(v)
+    walk(m)
+    return found
+
+
+def writer_maps(r, m):
+    """user prefix maps for one instance: one that binds the DEFAULT prefix to a namespace the model uses (None key, or the
+    ElementTree-style '' key), one that binds it or a named prefix to another namespace, one from the general pool
+    (JSON cannot carry a None key: "" stands for None, "@empty" for the literal '' key)"""
+    nss = model_namespaces(m) or ["urn:a"]
+    other = [u for u in G.NS + ["urn:other"] if u not in nss] or ["urn:other"]
+    own = r.choice(nss)
+    maps = [{r.choice(["", "", "@empty"]): own},
+            r.choice([{"": r.choice(other)}, {"p": own}, {"": own, "p": r.choice(nss)}, {"p": r.choice(other), "": own}]),
+            r.choice(NS_MAPS + RAW_MAPS)]
+    return maps
+
+
+# qualified attributes in the namespace of their element (attributeFormDefault="qualified") and in another one, next to
+# unqualified ones, under every kind of user map: all three backends must agree (round-3 seed C08 m2)
+QATTR_SRC = G.HEADER + '''
+@dataclass
+class Item:
+    class Meta:
+        namespace = "urn:t"
+    code: Optional[str] = field(default=None, metadata={"type": "Attribute", "namespace": "urn:t"})
+    other: Optional[str] = field(default=None, metadata={"type": "Attribute", "namespace": "urn:o"})
+    plain: Optional[str] = field(default=None, metadata={"type": "Attribute"})
+    value: Optional[str] = field(default=None, metadata={"type": "Element"})
+    deep: list["Item"] = field(default_factory=list, metadata={"type": "Element", "namespace": "urn:o"})
+
+@dataclass
+class Root:
+    class Meta:
+        namespace = "urn:t"
+    flag: Optional[str] = field(default=None, metadata={"type": "Attribute", "namespace": "urn:t"})
+    item: list[Item] = field(default_factory=list, metadata={"type": "Element"})
+'''
+
+
+def _s(v):
+    return {"__p__": "str", "v": v}
+
+
+def qattr_job(ck):
+    def item(code, other, plain, value, deep=()):
+        return {"__cls__": "Item", "fields": {"code": _s(code) if code else None, "other": _s(other) if other else None,
+                                              "plain": _s(plain) if plain else None, "value": _s(value) if value else None, "deep": list(deep)}}
+    insts = [{"__cls__": "Root", "fields": {"flag": _s("f"), "item": [item("c1", "o1", "p1", "v1"), item("c2", None, None, None)]}},
+             {"__cls__": "Root", "fields": {"flag": None, "item": [item(None, "o", None, "v", [item("dc", "do", "dp", None)])]}},
+             {"__cls__": "Root", "fields": {"flag": _s("x"), "item": []}}]
+    maps = [None, {"": "urn:t"}, {"@empty": "urn:t"}, {"": "urn:o"}, {"@empty": "urn:o"}, {"": "urn:unused"}, {"t": "urn:t"}, {"o": "urn:o"},
+            {"": "urn:t", "o": "urn:o"}, {"": "urn:o", "t": "urn:t"}, {"": "urn:t", "t": "urn:t"}, {"t": "urn:t", "t2": "urn:t"},
+            {"xsi": "http://www.w3.org/2001/XMLSchema-instance", "": "urn:t"}]
+    cases = [{"i": i, "op": "writers", "config": c, "ns_map": nm} for i in range(len(insts)) for nm in maps
+             for c in ({}, {"xml_declaration": False, "indent": "  "})]
+    cases += [{"i": i, "op": "roundtrip", "writer": w, "handler": "lxml", "ns_map": nm, "strict": True}
+              for i in range(len(insts)) for nm in maps for w in ("native", "lxml")]
+    return {"src": QATTR_SRC, "name": f"qattr_{ck.seed}", "root": "Root", "instances": insts, "cases": cases}
+
+
 def run(ck: Check):
     ck.level = "proof"
     r = ck.rng
@@ -168,9 +241,11 @@ def run(ck: Check):
         insts = [G.gen_instance(r, m, m["root"]) for _ in range(3)]
         cases = []
         for i in range(len(insts)):
-            cases.append({"i": i, "op": "writers", "config": r.choice(CONFIGS), "ns_map": r.choice(NS_MAPS + RAW_MAPS)})
+            for nm in writer_maps(r, m):
+                cases.append({"i": i, "op": "writers", "config": r.choice(CONFIGS), "ns_map": nm})
             cases.append({"i": i, "op": "handlers", "rewrite_seed": r.randrange(1 << 30) if r.random() < 0.6 else None})
         jobs.append({"src": G.render_source(m), "name": f"gm_{ck.seed}_{k}", "root": m["root"], "instances": insts, "cases": cases})
+    jobs.append(qattr_job(ck))
     out = []
     for i in range(0, len(jobs), 20):
         out += run_impl("impl_binding.py", jobs[i:i + 20], timeout=1800)
@@ -185,8 +260,17 @@ def run(ck: Check):
             stats[case["op"]] = stats.get(case["op"], 0) + 1
             if res.get("equal"):
                 continue
-            if "exc" in res:
+            if "exc" in res and case["op"] == "roundtrip":
+                ck.failure(f"writer-roundtrip-{case.get('writer', 'native')}-{res['exc']}",
+                           f"{case.get('writer')} writer with ns_map={case.get('ns_map')}: writing or reading back raises {res['exc']}: "
+                           f"{res.get('msg', '')[:200]}", {"model_src": job["src"], "instance": job["instances"][case["i"]], "case": case})
+            elif "exc" in res:
                 ck.failure("harness-exception-" + res["exc"], res.get("msg", "") + res.get("tb", ""), {"src": job["src"], "case": case})
+            elif case["op"] == "roundtrip":
+                ck.failure("writer-roundtrip-" + case.get("writer", "native"),
+                           f"{case.get('writer')} writer with ns_map={case.get('ns_map')}: the document does not read back as the object "
+                           f"({res.get('diff')}): {res.get('xml', '')[:300]}", {"model_src": job["src"], "instance": job["instances"][case["i"]],
+                                                                                "case": case, "result": res})
             elif case["op"] == "writers":
                 errs = res.get("errors") or {}
                 nm = case.get("ns_map") or {}
